@@ -43,6 +43,24 @@ fn spec_validate_message(env: &Env, contract: &Address, caller: &Address, source
         }
     }
 }
+// the read-only gateway queries are part of GatewaySpec too: an app that merely *asks* instead of consuming is judged, not left inconclusive
+fn spec_is_message_approved(_env: &Env, contract: &Address, source_chain: &String, message_id: &String, source_address: &String, contract_address: &Address, payload_hash: &BytesN<32>) -> bool {
+    unsafe {
+        let m = match &G_FOR {
+            Some((c, ch, id, sa, ph)) => *c == *contract_address && *ch == *source_chain && *id == *message_id && *sa == *source_address && *ph == payload_hash.0,
+            None => false,
+        };
+        *contract == gateway_addr() && G_STATUS == 1 && m
+    }
+}
+fn spec_is_message_executed(_env: &Env, contract: &Address, source_chain: &String, message_id: &String) -> bool {
+    unsafe {
+        match &G_FOR {
+            Some((_, ch, id, _, _)) => *contract == gateway_addr() && G_STATUS == 2 && *ch == *source_chain && *id == *message_id,
+            None => false,
+        }
+    }
+}
 struct Delivery {
     env: Env,
     chain: String,
@@ -95,6 +113,8 @@ fn check_effect(d: &Delivery) {
 #[kani::proof]
 #[kani::unwind(100)]
 #[kani::stub(axelar_gateway::messaging_interface::xc_AxelarGatewayMessagingClient_validate_message, spec_validate_message)]
+#[kani::stub(axelar_gateway::messaging_interface::xc_AxelarGatewayMessagingClient_is_message_approved, spec_is_message_approved)]
+#[kani::stub(axelar_gateway::messaging_interface::xc_AxelarGatewayMessagingClient_is_message_executed, spec_is_message_executed)]
 fn c16_example_execute() {
     let d = delivery();
     model::with_contract(&app(), || Example::execute(d.env.clone(), d.chain.clone(), d.id.clone(), d.src.clone(), d.payload.clone()));
@@ -118,6 +138,8 @@ impl AxelarExecutableInterface for MiniApp {
 #[kani::proof]
 #[kani::unwind(100)]
 #[kani::stub(axelar_gateway::messaging_interface::xc_AxelarGatewayMessagingClient_validate_message, spec_validate_message)]
+#[kani::stub(axelar_gateway::messaging_interface::xc_AxelarGatewayMessagingClient_is_message_approved, spec_is_message_approved)]
+#[kani::stub(axelar_gateway::messaging_interface::xc_AxelarGatewayMessagingClient_is_message_executed, spec_is_message_executed)]
 fn c16_miniapp_execute() {
     let d = delivery();
     model::with_contract(&app(), || MiniApp::execute(d.env.clone(), d.chain.clone(), d.id.clone(), d.src.clone(), d.payload.clone()));
